@@ -282,7 +282,7 @@ fn judge_set(view: View, raw: &[u8; 4], f: usize, v: u32) -> (String, Option<Str
     }
 }
 
-fn judge_transport_validator(raw: &[u8; 4], version: u8) -> (String, Option<String>) {
+pub fn judge_transport_validator(raw: &[u8; 4], version: u8) -> (String, Option<String>) {
     match trap(|| MCTPTransportHeader::new_from_buf(*raw, version).map(|h| h.0)) {
         Err(m) => (format!("panic {}", m), Some(format!("MCTPTransportHeader::new_from_buf panicked: {}", m))),
         Ok(r) => {
@@ -310,7 +310,7 @@ fn hex_arr(b: &[u8; 4]) -> String {
     hex(b)
 }
 
-fn judge_body_validator(b: u8) -> (String, Option<String>) {
+pub fn judge_body_validator(b: u8) -> (String, Option<String>) {
     match trap(|| MCTPMessageBodyHeader::new_from_buf([b]).map(|h| h.0[0])) {
         Err(m) => (format!("panic {}", m), Some(format!("MCTPMessageBodyHeader::new_from_buf panicked: {}", m))),
         Ok(r) => {
